@@ -947,6 +947,23 @@ pub fn run_c11(ctx: &mut Ctx, scn: &NetScn, seed: u64) {
             }
         }
     }
+    // all keys together: each connection's own order relates operations on different keys, which
+    // the key-by-key search cannot see (bounded search; inconclusive beyond the bound)
+    if ctx.out.violations.is_empty() {
+        let all: Vec<(usize, LOp)> = per_key.iter().enumerate().flat_map(|(k, ops)| ops.iter().map(move |(o, _)| (k, o.clone()))).collect();
+        if all.len() <= 60 {
+            match lin::linearizable_all_keys(&all, per_key.len(), 300_000) {
+                Some(false) => {
+                    let mut v = all.clone();
+                    v.sort_by_key(|(_, o)| o.inv);
+                    let h: Vec<String> = v.iter().map(|(_, o)| format!("[{}..{}] {}", o.inv, o.ret, o.who)).collect();
+                    ctx.viol("not-linearizable", format!("every key's replies alone have a linearization, but all keys together (real time and each connection's own order) have none: {}", h.join("; ")), "");
+                }
+                Some(true) => ctx.sim.probe("all_keys_linearization_found"),
+                None => ctx.sim.probe("all_keys_search_inconclusive"),
+            }
+        }
+    }
     if !run.server_returned && ctx.out.violations.is_empty() {
         ctx.viol("server-did-not-stop", "Server::run did not return within 60 simulated seconds after the shutdown signal".into(), "");
     }
